@@ -174,7 +174,11 @@ def run_plan(plan: dict) -> dict:
     if exc is not None:
         from leaspy.exceptions import LeaspyInputError
 
-        if isinstance(exc, LeaspyInputError):
+        if isinstance(exc, LeaspyInputError) and algo != "scipy_minimize" and plan.get("n_burn_in_iter") is not None \
+                and 0 <= plan["n_burn_in_iter"] < plan["n_iter"] and not plan.get("annealing") and "burn" in str(exc).lower():
+            # an explicit burn-in count inside [0, n_iter) is a documented setting: refusing it returns no estimate at all
+            violation(out, "completes", f"valid_burn_in_count_refused:{algo}:count_{'zero' if plan['n_burn_in_iter'] == 0 else 'positive'}", f"{where}: {str(exc)[:200]}")
+        elif isinstance(exc, LeaspyInputError):
             out["discarded"] = f"refused:{type(exc).__name__}"
         else:
             violation(out, "completes", f"personalize_raised:{algo}:{type(exc).__name__}:{info['family']}", f"{where}: {type(exc).__name__}: {str(exc)[:300]}")
